@@ -192,7 +192,12 @@ pub fn run(id: &str, data: &[u8]) -> Option<String> {
 		"C03" => {
 			let f = c.u8();
 			let route = [c03::Route::Standalone, c03::Route::InFull, c03::Route::InReference][(f / 2) as usize % 3];
-			judge::<c03::C03>(c03::Case { fam: if f & 1 == 1 { Fam::Iri } else { Fam::Uri }, authority: String::from_utf8_lossy(c.rest()).to_string(), route, before: None })
+			// bit 6: the first text field is a predecessor read from the same (re-used) buffer
+			let before = if f & 64 != 0 { Some(c.text()) } else { None };
+			let authority = String::from_utf8_lossy(c.rest()).to_string();
+			// a predecessor only matters when it has the same length: pad / cut it to that length when asked to
+			let before = before.map(|b| if f & 128 != 0 && b.is_ascii() && authority.len() >= b.len() { format!("{b}{}", "a".repeat(authority.len() - b.len())) } else { b });
+			judge::<c03::C03>(c03::Case { fam: if f & 1 == 1 { Fam::Iri } else { Fam::Uri }, authority, route, before })
 		}
 		"C04" => {
 			let f = c.u8();
@@ -220,7 +225,15 @@ pub fn run(id: &str, data: &[u8]) -> Option<String> {
 		"C05" => {
 			let f = c.u8();
 			let initial = c.text();
-			judge::<c05::C05>(c05::Case { fam: if f & 1 == 1 { Fam::Iri } else { Fam::Uri }, full: f & 2 != 0, initial, op: setop(&mut c), before: vec![] })
+			let op = setop(&mut c);
+			// remaining bytes: calls made just before on other buffers
+			let mut before = vec![];
+			while !c.done() && before.len() < 3 {
+				let g = c.u8();
+				let i2 = c.text();
+				before.push(c05::Prev { full: g & 2 != 0, initial: i2, op: setop(&mut c) });
+			}
+			judge::<c05::C05>(c05::Case { fam: if f & 1 == 1 { Fam::Iri } else { Fam::Uri }, full: f & 2 != 0, initial, op, before })
 		}
 		"C06" => {
 			let fam = c.fam();
